@@ -699,7 +699,8 @@ impl<'i> ValidatorErrorBuilder<'i> {
 
     /// Check that all variables were defined.
     fn check_undefined_variables(mut self) -> Self {
-        for (name, span) in self.validator.unresolved_variables.iter() {
+        // `MultiMap::iter` yields only the first value of every key: every recorded use must be checked
+        for (name, span) in self.validator.unresolved_variables.flat_iter() {
             if !self.validator.contains_variable(name, *span) {
                 let error = ParserError::undefined_variable(*span, *name);
                 add_to_errors(&mut self.errors, *span, Token::Call, error);
